@@ -41,8 +41,16 @@ var Pool = []Pkg{
 	{"github.com/sirupsen/logrus", "logrus"},
 	{"github.com/kardianos/govendor/context", "context"}, // an element that merely ENDS in "vendor": not a vendor path
 	{"h.io/myvendor", "myvendor"},
-	{"root/vendor/g.com/vend", "vend"}, // must stay last (edit scripts never pick it)
+	{"root/vendor/g.com/vend", "vend"},
+	{"root/vendor/g.com/other", "other"},
+	{"m3/vendor/v.org/lib", "lib"},
+	{"vendor/w.net/top", "top"},
 }
+
+// NumPlain is the number of leading Pool entries that are not imported through a vendor directory;
+// edit scripts and Alias maps only use those (dst strips vendor prefixes when it decorates, never
+// when it restores).
+var NumPlain = len(Pool) - 4
 
 // ConflictIdx indexes the Pool entries that share a package name with another entry.
 var ConflictIdx = []int{7, 8, 9, 10, 11, 14, 15, 17, 18}
@@ -54,6 +62,9 @@ func Truth() map[string]string {
 		m[p.Path] = p.Name
 	}
 	m["g.com/vend"] = "vend"
+	m["g.com/other"] = "other"
+	m["v.org/lib"] = "lib"
+	m["w.net/top"] = "top"
 	// two vendored copies of one package, with different names, and no exact entry for it
 	m["m1/vendor/v.io/dup"] = "dupa"
 	m["m2/vendor/v.io/dup"] = "dupb"
